@@ -23,6 +23,9 @@ pub fn run(rep: &mut Report, thorough: bool) {
     let cfgs: Vec<Cfg> = variants.iter().map(|x| x.1.clone()).collect();
     for (vi, cfg) in cfgs.iter().enumerate() {
         let tag = variants[vi].0;
+        if rep.secondary && tag != "plain" && tag != "lists" {
+            continue;
+        }
         // ARP: all 65536 operations x target handled / not handled
         let targets = [srv4(), srv4b(), Ip::V4([10, 0, 0, 2]), Ip::V4([255, 255, 255, 255])];
         sweep_frames(rep, cfg, &format!("arp-op-{}", tag), "ARP op 0..65535 x 4 targets", 65536 * 4, |i| {
